@@ -6,7 +6,7 @@ import ast
 import re
 
 from sa import state, tables, templ, pyflow, fmtfields, interop
-from sa.loader import AnalysisError, parent_chain
+from sa.loader import enclosing_function, AnalysisError, parent_chain
 
 EXPLANATION = (
     "uses-subset-of-provides analysis over the tables and emitters of /repo: (R1) every {field} of "
@@ -999,6 +999,58 @@ def rule_r13(repo, run, T):
     run.floor(R, "guarded open/close groups", n, 10)
 
 
+def rule_r14(repo, run, T):
+    R = run.rule("C05.R14", "what one part requests another part provides: a module never uses itself, every user of a header "
+                            "is recorded, C helpers requested by the Fortran pass are written after it")
+    wf = repo.module("wrapf")
+    sm = wf.func("Wrapf.sort_module_info")
+    ifs = [n for n in ast.walk(sm) if isinstance(n, ast.If) and "module_name" in wf.seg(n.test)]
+    ok = len(ifs) == 1 and isinstance(ifs[0].test, ast.Compare) and len(ifs[0].test.ops) == 1 and \
+        isinstance(ifs[0].test.ops[0], ast.Eq) and bool(ifs[0].orelse)
+    if ok:
+        uses = [x for st in ifs[0].body for x in ast.walk(st) if isinstance(x, ast.Constant) and isinstance(x.value, str) and "use " in x.value]
+        ok = not uses
+    run.check(R, "wrapf.Wrapf.sort_module_info:own-module", ok,
+              "the `use` statement for other modules must be the else-arm of the plain test `mname == module_name`: with an "
+              "extra condition the module's own name falls into the else-arm and a procedure `use`s the module it is in",
+              wf.loc(sm))
+    # accumulate-by-key: setdefault(k, []).append(v); a non-empty default whose result is dropped records only the first
+    n = 0
+    for mn in ("util", "wrapc", "wrapf", "wrapp", "wrapl", "generate", "typemap", "ast"):
+        m = repo.module(mn)
+        for st in ast.walk(m.tree):
+            if isinstance(st, ast.Expr) and isinstance(st.value, ast.Call) and isinstance(st.value.func, ast.Attribute) \
+                    and st.value.func.attr == "setdefault" and len(st.value.args) == 2:
+                n += 1
+                d = st.value.args[1]
+                nonempty = isinstance(d, (ast.List, ast.Tuple, ast.Set)) and d.elts or isinstance(d, ast.Dict) and d.keys
+                fn = enclosing_function(st)
+                run.check(R, "%s.%s:%s" % (mn, getattr(fn, "_qualname", "<module>"), re.sub(r"\s+", "", m.seg(st.value))[:50]),
+                          not nonempty,
+                          "`%s` only stores the first value for a key: later users of the same key (e.g. other types needing "
+                          "the same header) are forgotten" % m.seg(st.value), m.loc(st))
+    # order of the passes
+    mm = repo.module("main")
+    f = mm.func("main_with_args")
+    pos = {}
+    for c in ast.walk(f):
+        if isinstance(c, ast.Call):
+            t = str(mm.seg(c))
+            if t.endswith(".write_impl_utility()"):
+                pos["util"] = c.lineno
+            if "Wrapf(" in t and t.endswith(".wrap_library()"):
+                pos["fortran"] = c.lineno
+    if set(pos) != {"util", "fortran"}:
+        raise AnalysisError("C05.R14: pass order of main_with_args not recognised: %s" % pos)
+    run.check(R, "main.main_with_args:utility-after-fortran", pos["util"] > pos["fortran"],
+              "the C utility file (helpers implemented in C and called from Fortran) is written before the Fortran pass has "
+              "registered the helpers it needs: they are never emitted (undefined symbol at link time)", mm.loc(f))
+    wu = [c for c in ast.walk(f) if isinstance(c, ast.Call) and str(mm.seg(c)).endswith(".write_impl_utility()")]
+    conds = [(str(mm.seg(t)), pol) for t, pol in pyflow.dominating_tests(wu[0], stop=f)]
+    run.check(R, "main.main_with_args:utility-guard", not any("wrap.c" == t and pol for t, pol in conds),
+              "write_impl_utility must also run when only Fortran is wrapped", mm.loc(wu[0]))
+
+
 def run(repo, run, tier):
     tables.check_model_assumptions(repo)
     T = dict(
@@ -1021,6 +1073,7 @@ def run(repo, run, tier):
     rule_r11(repo, run, T)
     rule_r12(repo, run, T)
     rule_r13(repo, run, T)
+    rule_r14(repo, run, T)
     run.assumptions.extend([
         "field universe is an over-approximation (any attribute store / Scope keyword in the emitter's "
         "modules defines the field): a report means no assignment exists at all",
